@@ -471,6 +471,22 @@ def run_scenario(sc):
     if has_py:
         got = guarded("to_python(API)", lambda: to_python(api))
         check(got == want_py, "to_python of the API-built term gives %r, expected %r" % (got, want_py))
+        # the value returned is the caller's: changing it in place (every list in it, also nested and empty ones) must not
+        # show up in a later conversion of the same term or of any other list
+        def scribble(v):
+            if isinstance(v, list):
+                for x in v:
+                    scribble(x)
+                v.append("<caller's own element>")
+        if got is not None:
+            scribble(got)
+            again = guarded("to_python(API) again", lambda: to_python(api))
+            check(again == want_py, "to_python of the same term after the caller changed the first result in place gives %r, "
+                                    "expected %r" % (again, want_py))
+            el = guarded("to_python([])", lambda: to_python(yp.ATOM_NIL))
+            check(el == [], "to_python([]) after a caller changed an earlier result in place gives %r, expected []" % (el,))
+            l2 = guarded("to_python([a])", lambda: to_python(yp.listpair(yp.atom("a"), yp.ATOM_NIL)))
+            check(l2 == ["a"], "to_python([a]) after a caller changed an earlier result in place gives %r, expected ['a']" % (l2,))
 
     # --- (3) atoms: one object per name and engine; unify across engines
     names_ = sorted(atom_names(lit, set()) | {"[]"})
